@@ -126,6 +126,13 @@ class Url:
         return cls(username=username, password=password, hostname=host, port=port)
 
     @staticmethod
+    def _port(raw: bytes) -> int:
+        """int() also accepts signs, underscores and surrounding whitespace."""
+        if not raw.isdigit():
+            raise ValueError('Invalid port %r' % raw)
+        return int(raw)
+
+    @staticmethod
     def _parse(raw: bytes) -> Tuple[
             Optional[bytes],
             Optional[bytes],
@@ -147,12 +154,12 @@ class Url:
             return username, password, parts[0], None
         # Host and port found
         if num_parts == 2:
-            return username, password, COLON.join(parts[:-1]), int(parts[-1])
+            return username, password, COLON.join(parts[:-1]), Url._port(parts[-1])
         # More than a single COLON i.e. IPv6 scenario
         try:
             # Try to resolve last part as an int port
             last_token = parts[-1].split(COLON)
-            port = int(last_token[-1])
+            port = Url._port(last_token[-1])
             host = COLON.join(parts[:-1]) + COLON + \
                 COLON.join(last_token[:-1])
         except ValueError:
